@@ -42,18 +42,19 @@ def run(ctx):
         ctx.model_check("MC_Concurrent", "selftest_shared_seen", constants=dict(BASE, Ops=("<-", "Ops3b"), Len0=("<-", "Len3b"), Overlap=("<-", "OverlapAB"), PinSharedSeen=True),
                         invariants=["SoloResult"], expect=["SoloResult"])
     rnd = random.Random(ctx.seed)
-    sets2 = [("get", "walkA"), ("walkA", "walkB"), ("walkA", "bulkA"), ("get", "set"), ("mget", "bulkC"), ("walkB", "table"), ("get", "get2"), ("walkC", "set2")]
+    sets2 = [("get", "walkA"), ("walkA", "walkB"), ("walkA", "bulkA"), ("get", "set"), ("mget", "bulkC"), ("walkB", "table"), ("get", "get2"), ("walkC", "set2"),
+             ("get3", "walkA"), ("get3", "walkB"), ("get3", "next3"), ("next3", "walkB")]       # GET and GETNEXT of the same name in flight together
     sets3 = [("get", "walkB", "bulkC"), ("walkA", "walkB", "set"), ("mget", "table", "get2")]
     big = [("get", "get2", "mget", "set"), ("walkA", "walkB", "walkC", "bulkA", "get"), ("get", "set", "set2", "mget", "walkC", "bulkC")]
     T = []
     for proto in ("v2c", "v3p_md5"):
         solo_cache, ex_cache = {}, {}
 
-        def prep(ops, clients):
-            key = (tuple(map(tuple, ops)), clients)
+        def prep(ops, clients, same_agent=False):
+            key = (tuple(map(tuple, ops)), clients, same_agent)
             if key not in solo_cache:
-                solo_cache[key] = D.solo_results(proto, ops, clients)
-                ex_cache[key] = D.exchanges(proto, ops, clients)
+                solo_cache[key] = D.solo_results(proto, ops, clients, same_agent)
+                ex_cache[key] = D.exchanges(proto, ops, clients, same_agent)
             return solo_cache[key], ex_cache[key]
         plans = [([[n, 0] for n in s], 1, 400 if not q else 40) for s in sets2] + [([[n, 0] for n in s], 1, 1200 if not q else 60) for s in sets3] \
             + [([[n, 0] for n in s], 1, 300 if not q else 25) for s in big] \
@@ -74,11 +75,19 @@ def run(ctx):
                     order = (first * 12)[:after] + [k for k in word if True]
                     sc = dict(proto=proto, ops=ops, order=order, clients=clients, late={k: after for k in second})
                     T.append(dict(scenario=dict(sc, solo=solo), events=asyncio.run(D.run_schedule(sc))))
+        if proto.startswith("v3"):
+            # different users (other pass-phrases, same hash) on ONE agent: keys are per user and engine, never per engine alone
+            for ops, clients, limit in [([["get", 0], ["get", 1]], 2, 40), ([["get", 0], ["walkC", 1], ["set", 2]], 3, 60 if q else 300), ([["get2", 1], ["get", 0]], 2, 40)]:
+                solo, ex = prep(ops, clients, True)
+                word = [k for k, n in ex.items() for _ in range(n)]
+                for order in distinct_orders(word, limit, rnd):
+                    sc = dict(proto=proto, ops=ops, order=list(order), clients=clients, same_agent=True)
+                    T.append(dict(scenario=dict(sc, solo=solo), events=asyncio.run(D.run_schedule(sc))))
     ctx.evaluations += len(T)
     verdicts = ctx.validate("Trace_Concurrent", T, chunk=3000)
     ctx.judge(T, verdicts, signature=sig, nontrivial=lambda tr, v: json.dumps([tr["scenario"]["proto"], tr["scenario"]["ops"], tr["scenario"]["order"]]))
     ctx.rule = ("sets of 2..6 concurrent operations (gets, multiget, sets, walks incl. overlapping subtrees, bulk walks, table) on one shared client and on two clients "
-                "for different agents on one loop, v2c and v3 authPriv; all distinct orders of answering the pending requests for the small sets (up to the limit), "
+                "for different agents on one loop, two / three clients of different users (other pass-phrases) for one agent, GET and GETNEXT of the same name in flight together, v2c and v3 authPriv; all distinct orders of answering the pending requests for the small sets (up to the limit), "
                 "seeded orders beyond; the clock advances between any two requests so that request ids differ; each operation's outcome is compared with its solo outcome")
     ctx.exhaustive = False
     ctx.assumptions = ["a response is always the agent's answer to the request it is released for (responses are never swapped between requests by the harness)"]
